@@ -323,7 +323,7 @@ impl<'a> Lexer<'a> {
         let start_pos = self.pos;
         self.pos += n;
         if self.pos >= self.buf.len() {
-            self.pos = self.buf.len() - 1;
+            self.pos = self.buf.len().saturating_sub(1);
         }
         if start_pos < self.buf.len() {
             self.new_substr(start_pos..self.pos)
